@@ -47,13 +47,14 @@ def cycles(task):
                 n, present, mag, seed = spec
                 obj0 = c02.build(fmt, random.Random(seed), n, present, mag)
             p = [os.path.join(tmp, f"g{i}_" + O.SUFFIX[c02.real_fmt(fmt)]) for i in range(4)]
+            kwio = c02.io_kwargs(fmt)
             try:
-                api.dump_one(obj0, p[1], fmt=c02.real_fmt(fmt), allow_changes=True)
+                api.dump_one(obj0, p[1], fmt=c02.real_fmt(fmt), allow_changes=True, **kwio)
             except Exception:
                 ev["accepted"] = False   # the format does not accept this object: not a cycle
                 return ev
             try:
-                obj1 = api.load_one(p[1], fmt=c02.real_fmt(fmt))
+                obj1 = api.load_one(p[1], fmt=c02.real_fmt(fmt), **kwio)
             except Exception as exc:  # noqa: BLE001
                 # the first reload is C02 / C01 territory; for a corpus object of another format the object may be
                 # outside the documented domain of this format, so it is recorded as an observation only
@@ -63,9 +64,9 @@ def cycles(task):
                 ev["observation"] = not ev["accepted"]
                 return ev
             try:
-                api.dump_one(obj1, p[2], fmt=c02.real_fmt(fmt), allow_changes=True)
-                obj2 = api.load_one(p[2], fmt=c02.real_fmt(fmt))
-                api.dump_one(obj2, p[3], fmt=c02.real_fmt(fmt), allow_changes=True)
+                api.dump_one(obj1, p[2], fmt=c02.real_fmt(fmt), allow_changes=True, **kwio)
+                obj2 = api.load_one(p[2], fmt=c02.real_fmt(fmt), **kwio)
+                api.dump_one(obj2, p[3], fmt=c02.real_fmt(fmt), allow_changes=True, **kwio)
             except Exception as exc:  # noqa: BLE001
                 ev["ok"] = False
                 ev["stage"] = f"{type(exc).__name__}: {str(exc.__cause__ or exc)[:100]}".replace(tmp, "")
